@@ -117,7 +117,10 @@ MENUS = {
                            ("p2", [("st", "r8", 8), ("sta", "a64", 64), ("ro", "s32", 32)], None, None, None),
                            ("p3", [("st", "r33", 33)], None, None, None),
                            ("p4", [("st", "r1", 1)], None, None, None)],
-                  rams=[("ram2", 0x01000100, 0x100, "rwx"), ("main_ram", 0x40000000, 0x180, "rwx")],
+                  # ram0/rama: an automatically allocated region right after a non power-of-two one (whose decoder window is
+                  # rounded up); "lo" = origin 0, only built when the CSR region is based elsewhere
+                  rams=[("ram2", 0x01000100, 0x100, "rwx"), ("main_ram", 0x40000000, 0x180, "rwx"),
+                        ("ram0", "lo", 0x180, "rwx"), ("rama", None, 0x80, "rwx")],
                   roms=[("rom", 0x02000000, 0x40, 17, "little"), ("rom2", 0x02000100, 0x20, 13, "big")]),
 }
 MENU_ORDER = ["sizes", "atomic", "memfix", "loc0free", "multi"]
@@ -160,6 +163,10 @@ def build(std, bdw, ic, cdw, paging, ordering, aw, base, menu, tmpdir=None):
             soc.cpu.interrupt = Signal(32, name="tb_interrupt")
             soc.irq.enable()
         for name, origin, size, mode in M["rams"]:
+            if base == 0x0 and name in ("ram0", "rama"):
+                continue   # the CSR region is only added at finalize: an automatic allocation would take its place at 0
+            if origin == "lo":
+                origin = 0x0
             soc.add_ram(name, origin=origin, size=size, mode=mode)
         images = {}
         for rname, origin, size, n, endian in M["roms"]:
